@@ -181,4 +181,89 @@ theorem defaults_matches_source (c : RawCfg) :
     Gen.Src.c16DefaultOverhead, decide_eq_true_eq, hz]
   rfl
 
+/-! ### decision trees: order of the tests, nesting and exits regenerated from the source
+(`Gen.Src.c16*Tree`, `"kind": "tree"` entries of extract/exprs.d/C16.json) -/
+
+/-- **the body of `Report`'s build loop is the source's decision tree**: eligibility test, `Detail`
+error, gas test (three `continue`s), batch test (`break`), fall-through — in that order; one
+iteration of the model's loop takes the same exit for every result, batch under construction and
+running total within the limit (which the loop maintains, `report_no_wrap`). -/
+theorem reportLoop_tree_matches_source (cfg : Cfg) (r : Res) (rs acc : List Res) (total : Nat)
+    (h : total ≤ cfg.gasLimit.toNat) :
+    loopG skipNow stepNow cfg (r :: rs) acc total =
+      match Gen.Src.c16ReportLoopTree (Gen.Src.c16SkipResult r.eligErr r.eligible) r.detailErr total
+          (Gen.Src.c16UpkeepMaxGas r.gas.toNat cfg.overhead.toNat) cfg.gasLimit.toNat
+          (acc ++ [r]).length cfg.batch with
+      | 1 => loopG skipNow stepNow cfg rs acc total          -- continue: not eligible / eligibility error
+      | 2 => loopG skipNow stepNow cfg rs acc total          -- continue: Detail failed
+      | 3 => loopG skipNow stepNow cfg rs acc total          -- continue: over the gas limit
+      | 4 => acc ++ [r]                                      -- appended, batch full: break
+      | _ => loopG skipNow stepNow cfg rs (acc ++ [r])       -- appended, next result
+              (total + Gen.Src.c16UpkeepMaxGas r.gas.toNat cfg.overhead.toNat) := by
+  rw [reportLoop_step_matches_source, stepNow_matches_source cfg total r h]
+  unfold Gen.Src.c16ReportLoopTree
+  by_cases h1 : Gen.Src.c16SkipResult r.eligErr r.eligible = true
+  · simp [h1]
+  · by_cases h2 : r.detailErr = true
+    · simp [h1, h2]
+    · by_cases h3 : total + Gen.Src.c16UpkeepMaxGas r.gas.toNat cfg.overhead.toNat > cfg.gasLimit.toNat
+      · simp [h1, h2, h3, Gen.Src.c16OverGasLimit]
+      · by_cases h4 : cfg.batch ≤ acc.length + 1
+        · simp [h1, h2, h3, h4, Gen.Src.c16OverGasLimit, Gen.Src.c16BatchFull]
+        · simp [h1, h2, h3, h4, Gen.Src.c16OverGasLimit, Gen.Src.c16BatchFull]
+
+/-- **`Observation.Validate` is the source's decision tree**: the block key is tested first (exits 1, 2 =
+the two error returns), the identifier loop's body returns an error at its exits 1, 2, and `return nil`
+(exit 5) is reached only past both.  `BasicEncoder` answers `(true, nil)` or `(false, err)`. -/
+theorem validObs_tree_matches_source (o : Obs) :
+    validObs o =
+      (decide (Gen.Src.c16ValidateTree (validBlock o.block) (!validBlock o.block) = 5) &&
+       o.ids.all fun i => decide (Gen.Src.c16ValidateIdsTree (validId i) (!validId i) = 0)) := by
+  have hb : ∀ b : Bool, decide (Gen.Src.c16ValidateTree b (!b) = 5) = b := by
+    intro b; cases b <;> simp [Gen.Src.c16ValidateTree]
+  have hi : ∀ b : Bool, decide (Gen.Src.c16ValidateIdsTree b (!b) = 0) = b := by
+    intro b; cases b <;> simp [Gen.Src.c16ValidateIdsTree]
+  simp only [validObs, hb, hi]
+
+/-- **`ValidateBlockKey` is the source's decision tree**: parse, canonical rendering, range — in that
+order, `return true, nil` (exit 4) only past all three.  `parses`, `rendered`, `negative`, `c` stand for
+what `big.Int` answers; their identification with the model's numeral predicates is the hypothesis. -/
+theorem validBlock_tree_matches_source (s : Bytes) (parses negative : Bool) (rendered key : String) (c : Int)
+    (h1 : canonDec s = (parses && decide (rendered = key) && !negative))
+    (h2 : c > 0 ↔ decVal s > maxBlockNumber) :
+    validBlock s = decide (Gen.Src.c16ValidateBlockKeyTree parses rendered key negative c = 4) := by
+  simp only [validBlock, h1, Gen.Src.c16ValidateBlockKeyTree]
+  by_cases hr : decVal s ≤ maxBlockNumber
+  · have hc : ¬ c > 0 := fun hh => by have := h2.mp hh; omega
+    cases parses <;> cases negative <;> by_cases hk : rendered = key <;> simp [hr, hc, hk]
+  · have hc : c > 0 := h2.mpr (by omega)
+    cases parses <;> cases negative <;> by_cases hk : rendered = key <;> simp [hr, hc, hk]
+
+/-- **`ValidateUpkeepIdentifier` is the source's decision tree** (same shape, bound 2^256 − 1) -/
+theorem validId_tree_matches_source (s : Bytes) (parses negative : Bool) (rendered key : String) (c : Int)
+    (h1 : canonDec s = (parses && decide (rendered = key) && !negative))
+    (h2 : c > 0 ↔ decVal s > maxUpkeepIdentifier) :
+    validId s = decide (Gen.Src.c16ValidateIdTree parses rendered key negative c = 4) := by
+  simp only [validId, h1, Gen.Src.c16ValidateIdTree]
+  by_cases hr : decVal s ≤ maxUpkeepIdentifier
+  · have hc : ¬ c > 0 := fun hh => by have := h2.mp hh; omega
+    cases parses <;> cases negative <;> by_cases hk : rendered = key <;> simp [hr, hc, hk]
+  · have hc : c > 0 := h2.mpr (by omega)
+    cases parses <;> cases negative <;> by_cases hk : rendered = key <;> simp [hr, hc, hk]
+
+/-- **the filter loop of `filterAndDedupe` is the source's decision tree**: a key leaves the inner loop
+(`continue InnerLoop`, exit 1) as soon as a filter answers `ok || err != nil`; otherwise it reaches the
+de-duplication -/
+theorem dedupeLoop_tree_matches_source (pending failed : Bytes → Bool) (k : Bytes) (ks out : List Bytes) :
+    dedupeLoop (fun k => pending k || failed k) (k :: ks) out =
+      match Gen.Src.c16FilterLoopTree (pending k) (failed k) with
+      | 1 => dedupeLoop (fun k => pending k || failed k) ks out
+      | _ => if out.contains k then dedupeLoop (fun k => pending k || failed k) ks out
+             else dedupeLoop (fun k => pending k || failed k) ks (out ++ [k]) := by
+  rw [dedupeLoop]
+  unfold Gen.Src.c16FilterLoopTree
+  by_cases h : (pending k || failed k) = true
+  · simp [h]
+  · simp [h]
+
 end AutoVerif.C16
